@@ -64,6 +64,9 @@ func (c *VerifConn) Drain() (bodies [][]byte, closed bool) {
 	}
 }
 
+// Buffered is the number of bodies waiting on the connection's channel.
+func (c *VerifConn) Buffered() int { return len(c.c.ch) }
+
 // VerifLoop runs the real PollWorker.Start loop on its own goroutine over unbuffered, harness-owned channels:
 // every Connect / Disconnect / Send is a rendezvous with the worker, so a harness can serialise operations
 // (including closing the send queue, the shutdown branch of the loop) and observe the result.
